@@ -12,7 +12,7 @@ Faithful on purpose (these are what the emitted code relies on):
   * the operand stack survives jumps; bin_op / if_stmt / while_loop / call clear it; fast_rev2 / store / equ demand exact sizes;
   * array views (`xs[i]`) are pointers until an instruction dereferences them."""
 import z3
-from core import (Fail, Unsupported, OutOfBound, NIL, ListRef, Cell, Fn, Ptr, CellPtr, Obj, is_sym, is_int, is_bool, arith, compare, negate,
+from core import (Fail, Unsupported, OutOfBound, NIL, ListRef, Cell, Fn, Ptr, CellPtr, Obj, BuiltIn, list_builtin, LIST_BUILTINS, is_sym, is_int, is_bool, arith, compare, negate,
                   logic_not, logic, equals)
 
 SPECIAL = ("<if>", "<else>", "<while>")
@@ -244,6 +244,10 @@ class Machine:
                 ob = self.deref(ops.pop())
                 if ob is NIL:
                     raise Fail("lookup", "nil object")
+                if isinstance(ob, ListRef) and a[0] in LIST_BUILTINS:
+                    ops.append(BuiltIn(a[0]))
+                    ip = nxt
+                    continue
                 if not isinstance(ob, Obj):
                     raise Unsupported("lookup `%s` on a non-object" % a[0])
                 c = ob.vars.get(a[0])
@@ -306,7 +310,25 @@ class Machine:
                 ops.append(res)
             elif op == "bin_op_assign":
                 if len(a) < 2:
-                    raise Unsupported("bin_op_assign through a pointer")
+                    # pointer form: [.., ptr, value] -> *ptr = *ptr op value ; the new element replaces the pointer on the stack
+                    if len(ops) < 2:
+                        raise Fail("bin_op_assign", "needs a pointer and a value")
+                    v = self.deref(ops.pop())
+                    pt = ops[-1]
+                    sym = a[0][:-1]
+                    if sym not in ("+", "-", "*", "/", "%"):
+                        raise Unsupported("bin_op_assign " + a[0])
+                    if isinstance(pt, Ptr):
+                        res = arith(o, sym, self.deref(pt.lst.items[pt.idx]), v)
+                        pt.lst.items[pt.idx] = res
+                    elif isinstance(pt, CellPtr):
+                        res = arith(o, sym, self.deref(pt.cell.v), v)
+                        pt.cell.v = res
+                    else:
+                        raise Fail("bin_op_assign", "not a HeapPrimitive")
+                    ops[-1] = res
+                    ip = nxt
+                    continue
                 c = self.find_name(a[1])
                 if c is None:
                     raise Fail("bin_op_assign", a[1] + " has not been mapped")
@@ -441,6 +463,17 @@ class Machine:
                     if not ops:
                         raise Fail("call", "the local stack is empty")
                     f = self.deref(ops.pop())
+                    if isinstance(f, BuiltIn):
+                        # native call: BuiltInFunction::run clones (and dereferences) every argument off the operand stack
+                        bargs = [self.deref(x) for x in ops]
+                        ops.clear()
+                        if not bargs:
+                            raise Fail("call", "built-in without a receiver")
+                        rv = list_builtin(o, f.name, bargs[0], bargs[1:])
+                        if rv is not None:
+                            ops.append(rv)
+                        ip = nxt
+                        continue
                     if not isinstance(f, Fn):
                         raise Fail("call", "not a function")
                     fname, caps, cargs = f.name, f.captures, list(ops)
